@@ -84,6 +84,7 @@ class _Gate:
         return ln.decode()
 
     def call(self, name):
+        self.pending_name = name
         self.say("CALL " + name)
         ln = self.recv()
         if ln.startswith("go "):
@@ -319,9 +320,10 @@ def _child(spec, rfd, wfd):
                 return orig_signal(signum, h)
 
             def wrapped(sn, frame):
+                interrupted = getattr(g, "pending_name", "work")     # the call that was waiting for its `go`
                 h(sn, frame)
                 g.say("RESUMED")
-                g.say("CALL work")
+                g.say("CALL " + interrupted)
             return orig_signal(signum, wrapped)
         signal.signal = gated_signal
         if spec.get("user"):
@@ -624,6 +626,8 @@ def run_schedule(case, phases=None):
             order["0"] = [ghostpid[g] for _k, g in ghosts]
         trace, executed = [], []
         viols = []
+        acq_signals = []        # lockers that caught a signal during takeLocks
+        rel_signals = []        # ... inside giveLocks
 
         def split(name):
             if name and "@" in name:
@@ -698,7 +702,16 @@ def run_schedule(case, phases=None):
                 # a signal for process -(i+1): delivered while it is in its command body, otherwise not sent at all
                 p = procs[-i - 1]
                 executed.append(i)
-                if p.pending == "work":
+                # ... or while its takeLocks is about to call mkdir (between two stacks, or in the wait before the next
+                # attempt on a contended stack: time.sleep is a no-op under the gate, the next call is that mkdir)
+                # ... or while its giveLocks (takeLocks has returned) is about to start on a lock: isdir is the first call
+                # of each lock's release
+                in_release = split(p.pending)[0] == "isdir" and p.nlocks is not None and p.spec.get("argv") is None
+                if not p.signalled and (p.pending == "work" or split(p.pending)[0] == "mkdir" or in_release):
+                    if split(p.pending)[0] == "mkdir":
+                        acq_signals.append(p.index)
+                    elif in_release:
+                        rel_signals.append(p.index)
                     p.signal(signal.SIGINT if case.get("signal") == "INT" else signal.SIGTERM)
                     trace.append([p.index, "signal", "delivered", current_violators(True)])
                 else:
@@ -780,7 +793,7 @@ def run_schedule(case, phases=None):
                 "held": [p.held if p.nlocks is not None else None for p in procs],
                 "held_kinds": [getattr(p, "held_kinds", None) for p in procs],
                 "status": [p.status for p in procs], "products": products, "stack_changed": changed,
-                "resumed": [p.index for p in procs if p.resumed],
+                "resumed": [p.index for p in procs if p.resumed], "acq_signals": acq_signals, "rel_signals": rel_signals,
                 "sigkilled": [p.index for p in procs if getattr(p, "sigkilled", False)]}
     finally:
         for p in procs:
